@@ -12,11 +12,11 @@ and a peer close is reported exactly once, after all data that preceded it."
 
 All theorems quantify over every operation list `ops` from the initial state: API calls, callback
 scripts (which themselves call send/enable/disable/disconnect), every kernel answer pattern
-(`kw`/`kr`: partial accepts, EAGAIN, errors, read chunkings), every order of readable/writable
-passes, peer writes and peer close at any point, for the raw BufferedFd and for TcpConnection.
-The model is the code with patches/C06-01 applied; `runOld` is the code as found.
+(`kw`/`kr`: partial accepts, EAGAIN, errors, read chunkings), every order of readable / writable /
+readable+writable passes, peer writes and peer close at any point, for the raw BufferedFd and for
+TcpConnection.  The model is the code with patches/C06-01..03 applied; `runOld` is the code as found.
 -/
-import TboxModel.C06.ProofsRecv
+import TboxModel.C06.ProofsClose
 namespace Tbox.C06
 
 /-! ## sending -/
@@ -134,35 +134,51 @@ theorem C06_recv_presentation (s : S) (k : Nat) (as : List Act)
     (hcb : s.rcb = some (k, as)) (ht : s.thr ≤ s.recvQ.length) :
     present s = runActs { s with hist := s.hist ++ [.recv s.recvQ k], recvQ := s.recvQ.drop k,
                                  taken := s.taken ++ s.recvQ.take k, pres := s.got.length } as := by
-  simp [present, ht, hcb]
+  simp [present, presentAny, ht, hcb]
 
--- OPEN (false, see the counterexample): for every operation list, closeOk (run init ops).hist —
--- "read-zero / disconnected is reported only after every byte the peer wrote before closing has
--- been presented".  With a receive threshold ≥ 2 the bytes below the threshold are still in the
--- receive buffer, never presented, when read-zero is reported.
+/-- **C06_close_after_data.** Every read-zero notification, and every `disconnected` notification of
+a TcpConnection caused by EOF, was made when every byte the peer had written had been read from
+the kernel and presented to the receive callback (ghost snapshot `fed.length - pres = 0`; when no
+receive callback is set "presented" is the documented discard) — for every threshold, chunking and
+consumption pattern (patches/C06-02: what is still buffered below the threshold is delivered
+before the close is reported). -/
+theorem C06_close_after_data (ops : List Op) : closeOk (run init ops).hist :=
+  (run_pres closeInv_frame ops init (fun _ _ => trivial) init_closeInv).close
 
-/-- **C06_close_after_data_partial.** When every receive threshold installed is 0 or 1: each
-read-zero notification, and each `disconnected` notification of a TcpConnection caused by EOF,
-was made when every byte the peer had written had been read from the kernel and presented
-(ghost snapshot `fed.length - pres = 0`). -/
-theorem C06_close_after_data_partial (ops : List Op) (h : ∀ op ∈ ops, op.thrSmall = true) :
-    closeOk (run init ops).hist :=
-  (run_pres closeInv_frame ops init h init_closeInv).close
-
-/-- **C06_close_after_data_counterexample.** Threshold 2: one byte arrives (below the threshold,
-not presented), the peer closes; read-zero is reported with that byte never presented. -/
+/-- **C06_close_after_data_counterexample.** The code as found, threshold 2: one byte arrives (below
+the threshold, not presented), the peer closes; read-zero is reported with that byte never presented. -/
 theorem C06_close_after_data_counterexample :
-    ¬ closeOk (run init [.init 3, .setRcb 2 (some (0, [])), .setZcb (some []), .enable,
-                         .feed [7], .rd, .peof, .rd]).hist := by
+    ¬ closeOk (runOld init [.init 3, .setRcb 2 (some (0, [])), .setZcb (some []), .enable,
+                            .feed [7], .rd, .peof, .rd]).hist := by
   intro h
   have := h.1 1 (by decide)
   cases this
 
-/-- **C06_disconnected_once.** A TcpConnection reports `disconnected` at most once, whatever
-happens afterwards. -/
-theorem C06_disconnected_once (ops : List Op) : discCount (run init ops).hist ≤ 1 := by
-  have h := (run_pres onceInv_frame ops init (fun _ _ => trivial) init_onceInv).once
-  split at h <;> omega
+/-- **C06_close_once.** The peer's close is reported at most once, whatever happens afterwards
+(further readable passes, disable/enable, more operations): at most one read-zero notification of a
+BufferedFd (patches/C06-03) and at most one `disconnected` notification of a TcpConnection. -/
+theorem C06_close_once (ops : List Op) :
+    zeroCount (run init ops).hist ≤ 1 ∧ discCount (run init ops).hist ≤ 1 := by
+  have h := run_pres onceInv_frame ops init (fun _ _ => trivial) init_onceInv
+  have h1 := h.zonce
+  have h2 := h.once
+  constructor
+  · split at h1 <;> omega
+  · split at h2 <;> omega
+
+/-- … and it is reported: a readable pass at EOF with nothing left to read or to present calls the
+read-zero callback (and, by `C06_close_once`, never again). -/
+theorem C06_close_reported (s : S) (as : List Act) (hr : s.readOn = true) (hp : s.pending = [])
+    (he : s.eof = true) (hq : s.rq = []) (hb : s.recvQ = []) (hc : s.conn = false) (hz : s.zcb = some as) :
+    (step s .rd).1 = runActs { s with rq := [], readOn := false, eofSeen := true,
+                                      hist := s.hist ++ [.readZero (s.fed.length - s.pres)] } as := by
+  simp [step, hr, hp, he, hq, hb, hc, hz, onRead, firstRead, emptyRes, flushThen, closeTail, fire, unpresented]
+
+/-- **C06_close_once_counterexample.** The code as found: read-zero is reported again in every
+readable pass until the user disables the descriptor. -/
+theorem C06_close_once_counterexample :
+    zeroCount (runOld init [.init 3, .setZcb (some []), .enable, .peof, .rd, .rd, .rd]).hist = 3 := by
+  decide
 
 /-! ## non-vacuity -/
 
@@ -178,13 +194,18 @@ example :
                        .kw [.accept 1, .eagain, .accept 5], .wr, .wr, .wr, .wr]
     s.wire = [1, 2, 3] ∧ s.sendQ = [] ∧ s.hist = [.sendComplete 0] ∧ s.drops = 0 := by decide
 
-/-- the hypothesis of `C06_close_after_data_partial` is met by a run that does report read-zero
-after re-presenting unconsumed bytes -/
+/-- unconsumed bytes are re-presented; at EOF what is buffered below the threshold is presented,
+then read-zero is reported — once, however many readable passes follow -/
 example :
-    let ops := [Op.init 3, .setRcb 1 (some (1, [])), .setZcb (some [.disable]), .enable,
-                .feed [7, 8], .kr [.chunk 0], .rd, .feed [9], .peof, .rd, .rd]
-    (∀ op ∈ ops, op.thrSmall = true) ∧
-    (run init ops).hist = [.recv [7, 8] 1, .recv [8, 9] 1, .readZero 0] := by decide
+    let ops := [Op.init 3, .setRcb 3 (some (1, [])), .setZcb (some []), .enable,
+                .feed [7, 8, 9], .kr [.chunk 0], .rd, .feed [5], .peof, .rd, .rd, .disable, .enable, .rd]
+    (run init ops).hist = [.recv [7, 8, 9] 1, .recv [8, 9, 5] 1, .recv [9, 5] 1, .readZero 0] := by decide
+
+/-- one dispatch reporting readable and writable: the read callback's `send` arms the write event,
+which is not served in that dispatch (it was not subscribed when the dispatch started) -/
+example :
+    let s := run init [.init 3, .setRcb 0 (some (9, [.send [1]])), .enable, .kw [.eagain], .feed [5], .rw]
+    s.hist = [.recv [5] 9] ∧ s.sendQ = [1] ∧ s.wire = [] ∧ s.writeArmed = true := by decide
 
 /-- a TcpConnection: EOF disables, expires and notifies once; later sends are refused -/
 example :
